@@ -58,7 +58,7 @@ def family(case, mn, py, rs, fields, rendered="", model=None):
             masked[a & 0xFFFFF if a < cpu.IMEM or a >= cpu.IMEM + 0x100 else a] = v
         if masked == py["w"] and all(py[q] == rs[q] for q in cpu.REGS):
             return "rust_does_not_mask_absolute_address_to_20_bits"
-    if mn == "RESET":
+    if mn == "RESET" and fields == ["pc"]:
         return "reset_vector_address"
     if mn in ("ADD", "SUB") and k in ("44", "45", "46", "4c", "4d", "4e"):
         return "register_pair_arithmetic_width_or_flags"
